@@ -7,7 +7,7 @@ copy and compare the implementation's results with those of the unchanged tree. 
 unchanged tree on exactly these operations (that is what ./check verifies), any difference is a model / implementation
 disagreement that ./check would report.  Survivors (no difference anywhere) are listed for inspection.
 
-usage: mutation_campaign.py <out.jsonl> [--workers N] [--sample spec] [--seed S] [--survivors-of earlier.jsonl]
+usage: mutation_campaign.py <out.jsonl> [--workers N] [--sample spec] [--seed S] [--survivors-of earlier.jsonl] [--exclude-done earlier.jsonl]
 Scratch copies live under /tmp/mc and are removed at the end."""
 import json, os, random, shutil, subprocess, sys, time, multiprocessing, glob, hashlib
 
@@ -120,7 +120,7 @@ def main():
     spec = sys.argv[sys.argv.index('--sample') + 1] if '--sample' in sys.argv else 'guard:all,droperr:all,not:all,op:500,lit:500'
     os.makedirs(MC, exist_ok=True)
     sh(['go', 'build', '-o', ROOT + '/build/mutgen', '.'], cwd=ROOT + '/tools/mutgen')
-    rc, out = sh([ROOT + '/build/mutgen', '/repo'])
+    rc, out = sh([ROOT + '/build/mutgen', os.environ.get('MUTGEN_SRC', '/repo')])   # MUTGEN_SRC: a clean export of HEAD when /repo's working tree is in use
     muts = [json.loads(l) for l in out.splitlines() if l.startswith('{')]
     muts = [m for m in muts if not any(s in m['file'] for s in SKIP_FILES)]
     rnd = random.Random(seed)
@@ -134,6 +134,10 @@ def main():
         prev = [json.loads(l) for l in open(sys.argv[sys.argv.index('--survivors-of') + 1])]
         keys = {(r['file'], r['start'], r['end'], r['new']) for r in prev if r['tests'] == 'pass' and not r.get('detected_by')}
         chosen = [m for m in muts if (m['file'], m['start'], m['end'], m['new']) in keys]
+    if '--exclude-done' in sys.argv:   # leave out what an earlier campaign already ran
+        prev = [json.loads(l) for l in open(sys.argv[sys.argv.index('--exclude-done') + 1])]
+        done = {(r['file'], r['start'], r['end'], r['new']) for r in prev}
+        chosen = [m for m in chosen if (m['file'], m['start'], m['end'], m['new']) not in done]
     rnd.shuffle(chosen)
     print(f'{len(muts)} candidate mutations, {len(chosen)} chosen', flush=True)
     d0 = setup_worker('base')
